@@ -624,4 +624,22 @@ example : set ex2 [97] [57] = [([97], [57]), ([98, 64, 99], [32, 50])] := by
 example : fromHeader (toHeader ex2) = ex2 := fromHeader_toHeader ex2 ex2_wf
 example : toHeader ex2 = [97, 61, 49, 44, 98, 64, 99, 61, 32, 50] := by decide
 
+/-! ## The tokenizer's `ignore_empty_members` option -/
+
+theorem kvMembers_eq_filter (sep : UInt8) : ∀ (fuel : Nat) (s : Bytes),
+    kvMembers sep fuel s = (kvMembersAll sep fuel s).filter (fun m => !m.isEmpty)
+  | 0, _ => by simp [kvMembers, kvMembersAll]
+  | _ + 1, [] => by simp [kvMembers, kvMembersAll]
+  | fuel + 1, c :: t => by
+    unfold kvMembers kvMembersAll
+    rcases h : takeTok sep (c :: t) with ⟨tok, _ | rest⟩
+    · by_cases he : (trim tok).isEmpty <;> simp [he]
+    · by_cases he : (trim tok).isEmpty <;> simp [he, kvMembers_eq_filter sep fuel rest]
+
+/-- with the default option the tokenizer delivers exactly the non-empty members of the option-free enumeration, in order:
+    empty members never become entries of a TraceState -/
+theorem members_eq_filter (sep : UInt8) (s : Bytes) :
+    members sep s = (membersAll sep s).filter (fun m => !m.isEmpty) :=
+  kvMembers_eq_filter sep s.length s
+
 end Otel.C14
